@@ -140,11 +140,17 @@ impl Transformation<String> {
   ) -> Result<Transformation<MetaVariable>, TransformError> {
     use Transformation as T;
     Ok(match self {
-      T::Replace(r) => T::Replace(Replace {
-        source: parse_meta_var(&r.source, lang)?,
-        replace: r.replace.clone(),
-        by: r.by.clone(),
-      }),
+      T::Replace(r) => {
+        // reject an invalid regex when the rule is loaded instead of panicking at scan time
+        if Regex::new(&r.replace).is_err() {
+          return Err(TransformError::InvalidRegex(r.replace.clone()));
+        }
+        T::Replace(Replace {
+          source: parse_meta_var(&r.source, lang)?,
+          replace: r.replace.clone(),
+          by: r.by.clone(),
+        })
+      }
       T::Substring(s) => T::Substring(Substring {
         source: parse_meta_var(&s.source, lang)?,
         start_char: s.start_char,
